@@ -15,6 +15,7 @@ import (
 	"github.com/corazawaf/coraza/v3/experimental/plugins/plugintypes"
 	"github.com/corazawaf/coraza/v3/internal/corazarules"
 	utils "github.com/corazawaf/coraza/v3/internal/strings"
+	"github.com/corazawaf/coraza/v3/internal/verifhook"
 	"github.com/corazawaf/coraza/v3/types"
 	"github.com/corazawaf/coraza/v3/types/variables"
 )
@@ -449,9 +450,11 @@ func (r *Rule) transformArg(arg types.MatchData, argIdx int, cache map[transform
 			}
 			if cached, ok := cache[key]; ok {
 				if i == len(r.transformationPrefixIDs)-1 {
+					verifhook.Event(verifhook.TCacheHit, nil, r.ID_, i)
 					// Full chain cached — nothing more to compute
 					return cached.arg, cached.errs
 				}
+				verifhook.Event(verifhook.TCachePrefixHit, nil, r.ID_, i)
 				value = cached.arg
 				errs = cached.errs
 				startIdx = i + 1
@@ -459,6 +462,9 @@ func (r *Rule) transformArg(arg types.MatchData, argIdx int, cache map[transform
 			}
 		}
 
+		if startIdx == 0 {
+			verifhook.Event(verifhook.TCacheMiss, nil, r.ID_, 0)
+		}
 		// Execute remaining transformations, caching each intermediate step
 		// so later rules sharing a prefix can reuse our work.
 		for i := startIdx; i < len(r.transformations); i++ {
@@ -663,6 +669,7 @@ var transformationNameToID = map[string]int{"": 0}
 var transformationIDsLock = sync.Mutex{}
 
 func transformationID(currentID int, transformationName string) int {
+	verifhook.Yield("tid.lock")
 	transformationIDsLock.Lock()
 	defer transformationIDsLock.Unlock()
 
